@@ -114,6 +114,40 @@ FIRST_EQ = FIRST_GUARD.replace("""                if (
                 activated = activated + 1
 """)
 equivalent("c08-eq-first-demorgan-continue", "C08", (A, FIRST_GUARD, FIRST_EQ))
+LOWEST_LOOP = """        for index, rule in enumerate(rule_block.rules):
+            rule.deactivate()
+            if rule.is_loaded():
+                activation_degree = rule.activate_with(conjunction, disjunction)
+                self.assert_is_not_vector(activation_degree)
+                if activation_degree > 0.0:
+                    heapq.heappush(activate, (activation_degree, index))
+"""
+equivalent("c08-eq-lowest-two-phase-deactivate", ["C08", "C13", "C01"], (A, LOWEST_LOOP, """        for rule in rule_block.rules:
+            rule.deactivate()
+        for index, rule in enumerate(rule_block.rules):
+            if rule.is_loaded():
+                activation_degree = rule.activate_with(conjunction, disjunction)
+                self.assert_is_not_vector(activation_degree)
+                if activation_degree > 0.0:
+                    heapq.heappush(activate, (activation_degree, index))
+"""))
+mutant("c08-lowest-index-among-loaded", ["C08"], (A, LOWEST_LOOP, """        for rule in rule_block.rules:
+            rule.deactivate()
+        loaded = [rule for rule in rule_block.rules if rule.is_loaded()]
+        for index, rule in enumerate(loaded):
+            activation_degree = rule.activate_with(conjunction, disjunction)
+            self.assert_is_not_vector(activation_degree)
+            if activation_degree > 0.0:
+                heapq.heappush(activate, (activation_degree, index))
+"""), "K1")
+mutant("c08-lowest-deactivate-only-loaded", ["C08", "C13"], (A, LOWEST_LOOP, """        for index, rule in enumerate(rule_block.rules):
+            if rule.is_loaded():
+                rule.deactivate()
+                activation_degree = rule.activate_with(conjunction, disjunction)
+                self.assert_is_not_vector(activation_degree)
+                if activation_degree > 0.0:
+                    heapq.heappush(activate, (activation_degree, index))
+"""), "O-dea")
 equivalent("c08-eq-general-rename", ["C08", "C01"], (A, """        for rule in rule_block.rules:
             rule.deactivate()
             if rule.is_loaded():
